@@ -30,6 +30,7 @@ package auth
 //@   ghost ve := callResult(verifier, 1, 1)
 //@   ghost tnow := callResult(now, 1, 0)
 //@   nopanic
+//@   modifies *
 //@   requires req != nil
 //@   ensures @verifier-at-most-once calls(verifier) <= 1
 //@   ensures @verifier-only-on-wellformed calls(verifier) == 1 ==> wellFormed(h) && callArg(verifier, 1, 1) == field(h, 1)
@@ -51,7 +52,11 @@ package auth
 //@   track fmt.Sprintf as sp
 //@   ghost code := callResult(verify, 1, 2)
 //@   ghost ti := callResult(verify, 1, 0)
-//@   ghost challengeable := (code == 401 || code == 403) && opts != nil && (old(opts.ResourceMetadataURL) != "" || old(len(opts.Scopes)) > 0)
+//@   snapshot afterVerify after call verify
+//@   ghost url := at(afterVerify, opts.ResourceMetadataURL)
+//@   ghost nscopes := at(afterVerify, len(opts.Scopes))
+//@   ghost challengeable := (code == 401 || code == 403) && opts != nil && (url != "" || nscopes > 0)
+//@   modifies *
 //@   requires r != nil
 //@   ensures @verify-once calls(verify) == 1 && callArg(verify, 1, 0) == r && callArg(verify, 1, 1) == verifier && callArg(verify, 1, 2) == opts
 //@   ensures @reject code != 0 ==> calls(serve) == 0 && calls(httpError) == 1 && callArg(httpError, 1, 0) == w && callArg(httpError, 1, 2) == code
@@ -61,7 +66,7 @@ package auth
 //@   ensures @challenge challengeable ==> calls(addHeader) == 1 && callArg(addHeader, 1, 1) == "WWW-Authenticate" && hasPrefix(callArg(addHeader, 1, 2), "Bearer ")
 //@   ensures @no-challenge !challengeable ==> calls(addHeader) == 0
 //@   ensures @challenge-params challengeable ==>
-//@                (old(opts.ResourceMetadataURL) != "" ==> callArg(sp, 1, 0) == "resource_metadata=%q")
-//@                && (old(opts.ResourceMetadataURL) == "" ==> callArg(sp, 1, 0) == "scope=%q" && calls(sp) == 1)
-//@                && (old(opts.ResourceMetadataURL) != "" && old(len(opts.Scopes)) > 0 ==> callArg(sp, 2, 0) == "scope=%q" && calls(sp) == 2)
-//@                && (old(len(opts.Scopes)) == 0 ==> calls(sp) == 1)
+//@                (url != "" ==> callArg(sp, 1, 0) == "resource_metadata=%q")
+//@                && (url == "" ==> callArg(sp, 1, 0) == "scope=%q" && calls(sp) == 1)
+//@                && (url != "" && nscopes > 0 ==> callArg(sp, 2, 0) == "scope=%q" && calls(sp) == 2)
+//@                && (nscopes == 0 ==> calls(sp) == 1)
